@@ -93,9 +93,10 @@ type Target struct {
 	options      TargetOptions
 	proxyHandler http.Handler
 
-	state        TargetState
-	inflight     inflightMap
-	inflightLock sync.Mutex
+	state           TargetState
+	stateAfterDrain TargetState
+	inflight        inflightMap
+	inflightLock    sync.Mutex
 
 	healthcheck   *HealthCheck
 	stateConsumer TargetStateConsumer
@@ -177,11 +178,11 @@ func (t *Target) SendRequest(w http.ResponseWriter, req *http.Request) {
 }
 
 func (t *Target) Drain(timeout time.Duration) {
-	originalState := t.updateState(TargetStateDraining)
+	originalState := t.beginDrain()
 	if originalState == TargetStateDraining {
 		return
 	}
-	defer t.updateState(originalState)
+	defer t.endDrain()
 
 	deadline := time.After(timeout)
 	toCancel := t.pendingRequestsToCancel()
@@ -258,6 +259,9 @@ func (t *Target) HealthCheckCompleted(success bool) {
 			switch t.state {
 			case TargetStateHealthy:
 				t.state = TargetStateUnhealthy
+			case TargetStateDraining:
+				// Takes effect when the drain ends.
+				t.stateAfterDrain = TargetStateUnhealthy
 			}
 		}
 		newState = t.state
@@ -397,6 +401,37 @@ func (t *Target) isClientCancellation(err error) bool {
 
 func (t *Target) isDraining(err error) bool {
 	return errors.Is(err, ErrorDraining)
+}
+
+func (t *Target) beginDrain() TargetState {
+	t.inflightLock.Lock()
+	defer t.inflightLock.Unlock()
+
+	originalState := t.state
+	if originalState != TargetStateDraining {
+		t.state = TargetStateDraining
+		t.stateAfterDrain = originalState
+	}
+
+	return originalState
+}
+
+func (t *Target) endDrain() {
+	restored := false
+
+	t.withInflightLock(func() {
+		// A health check may have moved us out of draining already; keep what it found.
+		if t.state == TargetStateDraining {
+			t.state = t.stateAfterDrain
+			restored = true
+		}
+	})
+
+	// The load balancer leaves a draining target out when it rebuilds its rotation,
+	// so tell it that we are back.
+	if restored && t.stateConsumer != nil {
+		t.stateConsumer.TargetStateChanged(t)
+	}
 }
 
 func (t *Target) updateState(state TargetState) TargetState {
